@@ -178,7 +178,7 @@ fn c05_check_request_size() {
 }
 
 #[kani::proof]
-fn c05_check_attached_files_policy() {
+fn c05_check_attached_files_policy_thorough() {
     let h = new_handler(Arc::new(KMock::default()));
     let c: u32 = kani::any();
     let req = match FrontendReq::try_from(c) { Ok(r) => r, Err(_) => return };
